@@ -67,6 +67,21 @@ def write_file(case, recs):
             w.write(r)
         w.close()
         return f.getvalue()
+    if api in ('mvrecs', 'mvfunc'):
+        # records handed over as bytes-like objects: memoryview slices of one larger buffer, bytearrays
+        big = b''.join(recs)
+        views, off = [], 0
+        for i, r in enumerate(recs):
+            views.append(memoryview(big)[off:off + len(r)] if i % 2 == 0 else bytearray(r))
+            off += len(r)
+        if api == 'mvfunc':
+            return mciipm.vbs_list_to_bytes(views, blocked=blocked)
+        f = KeepOpen()
+        w = mciipm.VbsWriter(f, blocked=blocked)
+        for v in views:
+            w.write(v)
+        w.close()
+        return f.getvalue()
     if api == 'wbfile':
         # a real file opened WRITE-ONLY ('wb'), as in the module documentation; the bytes are read back from disk
         import os
@@ -228,7 +243,7 @@ def explore(run, tier):
     # one-shot iterators as input; files of more than 64 KiB (65+ blocks), blocked and unblocked
     for b in (0, 1):
         for lens in ([5], [1, 2, 3], [1000, 1012, 7], [ml], [], [100], [1004], [1008, 1008, 40], [3, 4, 5, 6, 7, 8]):
-            for api in ('wbfile', 'many2', 'manywrite'):
+            for api in ('wbfile', 'many2', 'manywrite', 'mvrecs', 'mvfunc'):
                 cases.append({'b': b, 'lens': lens, 'api': api})
         for lens in ([5], [1, 2, 3], [1000, 1012, 7], [ml]):
             cases.append({'b': b, 'lens': lens, 'api': 'funcgen'})
